@@ -798,6 +798,10 @@ def idlc(idl_text, workdir, idx):
     p = os.path.join(workdir, f"spec_{idx}.idl")
     with open(p, "w") as f:
         f.write(idl_text)
+    return idlc_file(p)
+
+
+def idlc_file(p):
     try:
         r = subprocess.run([G.bin_path("idlc"), p], stdout=subprocess.PIPE, stderr=subprocess.PIPE, timeout=20)
     except subprocess.TimeoutExpired:
@@ -810,6 +814,134 @@ def idlc(idl_text, workdir, idx):
     if r.returncode == 0 and out.startswith("PANIC"):
         return "PANIC", out
     return "CRASH", out + r.stderr.decode("utf-8", "replace")[-300:]
+
+
+# ------------------------------------------------------------------------------------------ multi-file family (preprocessor; ORACLE ONLY)
+# A case with index >= MF_BASE is compiled from THREE files instead of one text: h1.idl (include guard, `#define <MACRO> k`, the definitions
+# whose names start with "H1"), h2.idl (include guard, `#include "h1.idl"`, the definitions named "H2..."), main.idl (`#include` of both, the
+# other definitions); every array dimension / sequence or string bound equal to k in h2 and main is written as the macro. The op lines carry
+# the SINGLE-FILE AST (includes inlined, macro replaced by its value): that is the reference the Lean model predicts from and the oracle
+# compares with. The preprocessor itself has no Lean model: guard handling and macro substitution are checked on the implementation's
+# output only (each header type generated exactly once, the macro name absent from the output, the crate compiles, descriptions equal).
+
+MF_BASE = 1000
+MF_MACRO = "MAXQ7"
+
+
+def mf_parts(spec):
+    h1 = [d for d in spec if d[0] in ("struct", "enum", "union") and d[1].startswith("H1")]
+    h2 = [d for d in spec if d[0] in ("struct", "enum", "union") and d[1].startswith("H2")]
+    main = [d for d in spec if d not in h1 and d not in h2]
+    k = None
+    for d in main:
+        if d[0] == "struct":
+            for _, _, decls in d[3]:
+                for _, dims in decls:
+                    if dims and k is None:
+                        k = dims[0]
+    return h1, h2, main, k
+
+
+def mf_subst(d, k):
+    """the definition with every bound equal to k written as the macro name"""
+    def ty(t):
+        if t[0] in ("string", "wstring"): return (t[0], MF_MACRO if t[1] == k else t[1])
+        if t[0] == "seq": return ("seq", ty(t[1]), MF_MACRO if t[2] == k else t[2])
+        return t
+    if d[0] == "struct":
+        return ("struct", d[1], d[2], [(a, ty(t), [(n, [MF_MACRO if x == k else x for x in dims]) for n, dims in decls]) for a, t, decls in d[3]])
+    return d
+
+
+def mf_files(spec, style):
+    """{file name: text}; `style` (an int) varies include order, guard spelling and where the macro is defined"""
+    h1, h2, main, k = mf_parts(spec)
+    g1, g2 = "GUARDQ1_IDL", "GUARDQ2_IDL"
+    define = f"#define {MF_MACRO} {k}\n"
+    h1_text = f"#ifndef {g1}\n#define {g1}\n" + (define if style % 2 == 0 else "") + "".join(def_idl(d) for d in h1) + (define if style % 2 else "") + "#endif\n"
+    h2_text = f"#ifndef {g2} // guard\n#define {g2}\n#include \"h1.idl\"\n" + "".join(def_idl(mf_subst(d, k)) for d in h2) + "#endif\n"
+    incs = ['#include "h1.idl"\n', '#include "h2.idl"\n']
+    if (style // 2) % 3 == 1:
+        incs.reverse()
+    elif (style // 2) % 3 == 2:
+        incs.append('#include "h1.idl" /* once more */\n')
+    return {"h1.idl": h1_text, "h2.idl": h2_text, "main.idl": "".join(incs) + "".join(def_idl(mf_subst(d, k)) for d in main)}
+
+
+def mf_style(spec):
+    import hashlib
+    return int(hashlib.sha1(spec_sx(spec).encode()).hexdigest()[:6], 16)
+
+
+def mf_compile(spec, workdir, idx):
+    d = os.path.join(workdir, f"mf_{idx}")
+    os.makedirs(d, exist_ok=True)
+    files = mf_files(spec, mf_style(spec))
+    for n, t in files.items():
+        with open(os.path.join(d, n), "w") as f:
+            f.write(t)
+    st, rust = idlc_file(os.path.join(d, "main.idl"))
+    return st, rust, files
+
+
+def mf_text_checks(spec, rust):
+    """on the generated Rust text alone: every definition generated exactly once, the macro substituted everywhere"""
+    import re
+    out = []
+    for path, d, mods in spec_types(spec):
+        n = len(re.findall(r"pub (?:struct|enum) " + re.escape(d[1]) + r"\b", rust))
+        if n != 1:
+            out.append(f"{d[1]} is generated {n} times (an include guard must make a header's definitions appear exactly once)")
+    if MF_MACRO in rust:
+        out.append(f"the macro {MF_MACRO} (#define in h1.idl) is left unsubstituted in the generated code")
+    return out
+
+
+class MfGen:
+    """random three-file specifications (as their single-file AST)"""
+    def __init__(self, rng):
+        self.r = rng
+        self.n = 0
+
+    def spec(self):
+        r = self.r
+        self.n += 1
+        n = self.n
+        k = r.choice([1, 2, 3, 8, 16])
+        other = r.choice([x for x in (4, 5, 7) if x != k])
+        M = lambda anns, t, *decls: (list(anns), t, [(d, []) if isinstance(d, str) else d for d in decls])
+        h1 = []
+        if r.chance(1, 2):
+            h1.append(("enum", f"H1Kind{n}", None, [(f"K{n}A", None), (f"K{n}B", None)]))
+        h1.append(("struct", f"H1Header{n}", [r.choice(["final", "appendable", "mutable"])] if r.chance(1, 2) else [],
+                   [M(["key"], tb("long"), "id"), M([], tb(r.choice(["octet", "short", "double", "boolean"])), "flags")]
+                   + ([M([], tname([h1[0][1]]), "kind")] if h1 else [])))
+        hname = h1[-1][1]
+        h2 = [("struct", f"H2Sensor{n}", [],
+               [M([], tname([hname]), "header"), M([], tb("octet"), ("samples", [k]))]
+               + ([M([], tseq(tb("short"), k), "queue")] if r.chance(1, 2) else [])
+               + ([M([], tb("long"), ("spare", [other]))] if r.chance(1, 2) else []))]
+        main = [("struct", f"Station{n}", [r.choice(["final", "mutable"])] if r.chance(1, 2) else [],
+                 [M(["key"], tname([hname]), "header"), M([], tname([h2[0][1]]), "sensor"), M([], tb("short"), ("history", [k]))]
+                 + ([M([], tstr(k), "label")] if r.chance(1, 2) else [])
+                 + ([M([], tname([h2[0][1]]), ("all", [k]), "one")] if r.chance(1, 3) else []))]
+        if r.chance(1, 3):
+            main.insert(0, ("const", f"KQ{n}", tb("long"), str(k)))
+        return h1 + h2 + main
+
+
+def mf_corpus():
+    """the exemplar of seeded change C41_c (guarded header reached twice; its macro used by both includers) first"""
+    M = lambda anns, t, *decls: (list(anns), t, [(d, []) if isinstance(d, str) else d for d in decls])
+    return [
+        [("struct", "H1Header", [], [M(["key"], tb("long"), "id")]),
+         ("struct", "H2Sensor", [], [M([], tname(["H1Header"]), "header"), M([], tb("octet"), ("samples", [8]))]),
+         ("struct", "Station", [], [M([], tname(["H1Header"]), "header"), M([], tname(["H2Sensor"]), "sensor"), M([], tb("short"), ("history", [8]))])],
+        [("enum", "H1Mode", None, [("ON", None), ("OFF", None)]),
+         ("struct", "H1Id", ["mutable"], [M(["key"], tb("ulonglong"), "v"), M([], tname(["H1Mode"]), "mode")]),
+         ("struct", "H2Block", ["appendable"], [M([], tname(["H1Id"]), "id"), M([], tseq(tb("double"), 3), "vals"), M([], tb("long"), ("pad", [5]))]),
+         ("struct", "Top", [], [M(["key"], tname(["H1Id"]), "id"), M([], tname(["H2Block"]), ("blocks", [3])), M([], tstr(3), "tag")])],
+    ]
 
 
 IDL_MAIN_TAIL = r'''
@@ -885,11 +1017,19 @@ def build_idl_crate(dirname, specs, predicted, log=None):
     work = os.path.join(G.GENCRATES, dirname + "_idl")
     entries, bins = [], {}
     for i, spec in sorted(specs.items()):
-        st, rust = idlc(spec_idl(spec), work, i)
+        mfv = []
+        if i >= MF_BASE:
+            st, rust, files = mf_compile(spec, work, i)
+            if st == "ok":
+                mfv = mf_text_checks(spec, rust)
+        else:
+            st, rust = idlc(spec_idl(spec), work, i)
         e = {"i": i, "status": st, "types": [p for p, _, _ in spec_types(spec)], "detail": rust[:300] if st != "ok" else ""}
+        if i >= MF_BASE:
+            e["mf_viol"], e["mf_files"] = mfv, files
         if st == "ok":
             e["rust"] = rust
-            if predicted.get(i, "ok") == "ok":
+            if predicted.get(i, "ok") == "ok" and not mfv:
                 e["in_main"] = True
             else:
                 e["probe"] = f"probe_{i}"
